@@ -1258,4 +1258,253 @@ Proof.
   exact (cinv_clause_inv _ _ _ _ _ _ Hc Ht).
 Qed.
 
+(* ================================================================ Part 5 *)
+(* The preferred solver (KPr) shares update_encoding; its query additionally adds, on the same session,
+   blocking clauses that all contain the MaxExt selector g = 1 + n_vars (at the start of the search)
+   and, when the query ends, the unit clause [g].  g is above every live variable, so with the forced
+   value TRUE these clauses are dead: the invariant holds between calls for KPr as well.  (What the
+   search does DURING the query, with g assumed false, is not covered here.) *)
+
+(* the session grew by clauses that all contain the literal g *)
+Definition gext (g : lit) (se se' : session) : Prop :=
+  exists cs, se_cl se' = se_cl se ++ cs /\ (forall c, In c cs -> In g c) /\
+             (sbounded se -> sbounded se') /\ nv se <= nv se'.
+
+Lemma gext_refl g se : gext g se se.
+Proof. exists []. rewrite app_nil_r. repeat split; auto. intros c []. Qed.
+Lemma gext_trans g se1 se2 se3 : gext g se1 se2 -> gext g se2 se3 -> gext g se1 se3.
+Proof.
+  intros (c1 & A1 & A2 & A3 & A4) (c2 & B1 & B2 & B3 & B4). exists (c1 ++ c2).
+  rewrite B1, A1, app_assoc. repeat split; auto; [|lia].
+  intros c Hc. apply in_app_or in Hc. destruct Hc; auto.
+Qed.
+Lemma gext_add g se c : In g c -> gext g se (sess_add se c).
+Proof.
+  intros Hg. exists [c]. rewrite se_cl_add. repeat split.
+  - intros c' [<-|[]]. exact Hg.
+  - apply sbounded_add.
+  - apply nv_add.
+Qed.
+Lemma gext_solved g d se a : gext g se (sess_solved d se a).
+Proof.
+  exists []. rewrite se_cl_solved, app_nil_r. repeat split.
+  - intros c [].
+  - apply sbounded_solved.
+  - apply nv_solved.
+Qed.
+Lemma gext_eq g se se' : se' = se -> gext g se se'.
+Proof. intros ->. apply gext_refl. Qed.
+
+Lemma solve_sess oracle a ps r ps' : Prog.solve oracle a ps = Done r ps' -> sess ps' = sess_solved (disc ps) (sess ps) a.
+Proof. intros E. apply solve_Done in E. destruct E as [-> _]. reflexivity. Qed.
+
+Lemma k_solve_gext oracle g e a ps r ps' : k_solve oracle e a ps = Done r ps' -> gext g (sess ps) (sess ps').
+Proof.
+  unfold k_solve. intros E. apply bind_Done in E. destruct E as (m & ps1 & E1 & E2).
+  apply solve_sess in E1. apply ret_Done in E2. destruct E2 as [_ <-]. rewrite E1. apply gext_solved.
+Qed.
+Lemma k_new_search_gext oracle e k ps k' ps' :
+  k_new_search oracle e k ps = Done k' ps' -> k_sel k' = k_sel k /\ gext (k_sel k) (sess ps) (sess ps').
+Proof.
+  unfold k_new_search. intros E. apply bind_Done in E. destruct E as (r & ps1 & E1 & E2).
+  apply (k_solve_gext oracle (k_sel k)) in E1. apply ret_Done in E2. destruct E2 as [<- <-].
+  split; [destruct r; reflexivity|exact E1].
+Qed.
+Lemma k_discard_gext (af : fw) e k ps u ps' :
+  k_discard L af e k ps = Done u ps' -> gext (k_sel k) (sess ps) (sess ps').
+Proof.
+  unfold k_discard. intros E. apply bind_Done in E. destruct E as (sp & ps1 & E1 & E2).
+  apply opt_m_Done in E1. destruct E1 as [_ ->]. apply add_clause_sess in E2. rewrite E2.
+  apply gext_add. apply in_or_app. right. left. reflexivity.
+Qed.
+Lemma k_compute_next_gext oracle (af : fw) e k ps k' ps' :
+  k_compute_next oracle L af e k ps = Done k' ps' -> k_sel k' = k_sel k /\ gext (k_sel k) (sess ps) (sess ps').
+Proof.
+  unfold k_compute_next. destruct (k_state k); intros E.
+  - apply bind_Done in E. destruct E as (u & ps1 & E1 & E2). apply k_discard_gext in E1.
+    apply k_new_search_gext in E2. destruct E2 as [E2 E3]. split; [exact E2|]. eapply gext_trans; eassumption.
+  - apply bind_Done in E. destruct E as (sp & ps1 & E1 & E2). apply opt_m_Done in E1. destruct E1 as [_ ->].
+    apply bind_Done in E2. destruct E2 as (u & ps2 & E2 & E3). apply add_clause_sess in E2.
+    apply bind_Done in E3. destruct E3 as (r & ps3 & E3 & E4). apply (k_solve_gext oracle (k_sel k)) in E3.
+    apply ret_Done in E4. destruct E4 as [<- <-]. split; [destruct r; reflexivity|].
+    eapply gext_trans; [|exact E3]. rewrite E2. apply gext_add. apply in_or_app. right. left. reflexivity.
+  - apply k_new_search_gext in E. exact E.
+  - discriminate E.
+  - apply ret_Done in E. destruct E as [<- <-]. split; [reflexivity|apply gext_refl].
+Qed.
+
+Lemma pr_loop_gext oracle fuel (af : fw) e arg_id : forall k fm in_all missing ps res ps',
+  pr_loop oracle L fuel af e arg_id k fm in_all missing ps = Done res ps' ->
+  k_sel (fst (fst (fst (fst res)))) = k_sel k /\ gext (k_sel k) (sess ps) (sess ps').
+Proof.
+  induction fuel as [|f IH]; intros k fm in_all missing ps res ps' E; cbn [pr_loop] in E; [discriminate E|].
+  apply bind_Done in E. destruct E as (k1 & ps1 & E1 & E2).
+  apply k_compute_next_gext in E1. destruct E1 as [Hs1 G1].
+  assert (Hrec : forall k2 fm2 ia2 ms2 ps2, k_sel k2 = k_sel k -> gext (k_sel k) (sess ps) (sess ps2) ->
+            pr_loop oracle L f af e arg_id k2 fm2 ia2 ms2 ps2 = Done res ps' ->
+            k_sel (fst (fst (fst (fst res)))) = k_sel k /\ gext (k_sel k) (sess ps) (sess ps')).
+  { intros k2 fm2 ia2 ms2 ps2 Hk2 G2 E'. destruct (IH _ _ _ _ _ _ _ E') as [H1 H2]. rewrite Hk2 in H1, H2.
+    split; [exact H1|]. eapply gext_trans; eassumption. }
+  destruct (k_state k1).
+  - destruct (negb _).
+    + apply ret_Done in E2. destruct E2 as [<- <-]. cbn [fst]. auto.
+    + eapply Hrec; eassumption.
+  - destruct (memb arg_id (k_cur k1)).
+    + apply bind_Done in E2. destruct E2 as (u & ps2 & E2 & E3). apply k_discard_gext in E2. rewrite Hs1 in E2.
+      eapply Hrec; [|eapply gext_trans; eassumption|exact E3]. exact Hs1.
+    + eapply Hrec; eassumption.
+  - eapply Hrec; eassumption.
+  - apply ret_Done in E2. destruct E2 as [<- <-]. cbn [fst]. auto.
+  - eapply Hrec; eassumption.
+Qed.
+
+(* what a query of the preferred solver does to the state *)
+Lemma pr_ds_query_inv oracle fuel (s : dsolver) l ps s' ans ps' :
+  pr_ds_query oracle L leqb fuel s l ps = Done (s', ans) ps' ->
+  (s' = s /\ ps' = ps) \/
+  (exists af buf ps1, update_encoding L leqb (s_af L s) (s_buf L s) ps = Done (af, buf) ps1 /\
+     exists ev, s' = pushed_state s af buf ev /\
+       gext (zlit (1 + nv (sess ps1))) (sess ps1) (sess ps') /\
+       clause_max [zlit (1 + nv (sess ps1))] <= nv (sess ps')).
+Proof.
+  unfold pr_ds_query. intros E.
+  destruct (is_skep L leqb (s_buf L s) l) as [[b|] [X|]].
+  1:{ left. apply ret_Done in E. destruct E as [E <-]. apply pair_equal_spec in E. destruct E as [<- _]. auto. }
+  all: right; apply bind_Done in E; destruct E as ([af buf] & ps1 & E1 & E2);
+    exists af, buf, ps1; (split; [exact E1|]);
+    destruct (b_enc L buf) as [e|e]; [|discriminate E2];
+    apply bind_Done in E2; destruct E2 as (n & ps2 & E2 & E3); apply n_vars_sess in E2; destruct E2 as [-> Hs2];
+    apply bind_Done in E3; destruct E3 as (arg_id & ps3 & E3 & E4); apply opt_m_Done in E3; destruct E3 as [_ ->];
+    apply bind_Done in E4; destruct E4 as ([[[[k result] acc_b] ref_b] X'] & ps4 & E4 & E5);
+    apply pr_loop_gext in E4; cbn [fst k_sel] in E4; destruct E4 as [Hk G4];
+    apply bind_Done in E5; destruct E5 as (acc & ps5 & E5 & E6); apply opt_m_Done in E5; destruct E5 as [_ ->];
+    apply bind_Done in E6; destruct E6 as (refused & ps6 & E6 & E7); apply opt_m_Done in E6; destruct E6 as [_ ->];
+    apply bind_Done in E7; destruct E7 as (u & ps7 & E7 & E8); apply add_clause_sess in E7;
+    apply ret_Done in E8; destruct E8 as [E8 <-]; apply pair_equal_spec in E8; destruct E8 as [<- _];
+    eexists; (split; [reflexivity|]); rewrite Hk in E7; rewrite Hs2 in G4; rewrite E7;
+    (split; [eapply gext_trans; [exact G4|apply gext_add; left; reflexivity]|apply nv_add]).
+Qed.
+
+Lemma dyn_query_pr_inv oracle thr fuel (s : dsolver) q cert l ps s' a ps' :
+  s_kind L s = KPr -> dyn_query oracle L leqb thr fuel s q cert l ps = Done (s', a) ps' ->
+  exists ans, pr_ds_query oracle L leqb fuel s l ps = Done (s', ans) ps'.
+Proof.
+  intros Hk E. unfold dyn_query in E. rewrite Hk in E. destruct q; try discriminate E.
+  apply bind_Done in E. destruct E as ([s1 ans] & ps1 & E1 & E2).
+  apply ret_Done in E2. destruct E2 as [E2 <-]. cbn [fst snd] in E2.
+  apply pair_equal_spec in E2. destruct E2 as [<- _]. exists ans. exact E1.
+Qed.
+
+(* every live variable occurs in a clause of the session *)
+Lemma live_var_le (af : fw) e C N dv atk se :
+  cinv af e [] C N dv atk -> tables_ok L af e -> C = se_cl se -> sbounded se ->
+  forall x, live_var e x -> x <= nv se.
+Proof.
+  intros [H1 H2 H3 H4 H5 H6 H7] Ht -> Hbd x Hx.
+  assert (Hsel : forall a s, tbl_var (e_a2s e) a = Some s -> s <= nv se).
+  { intros a s Hs. assert (Hne : tbl_var (e_a2s e) a <> None) by congruence.
+    assert (Hin : exists c, In c (grp e a (atk a))).
+    { unfold grp, co_clauses, st_clauses. destruct (e_sem e); eexists; apply in_or_app; right; [apply in_or_app; left| |apply in_or_app; left]; left; reflexivity. }
+    destruct Hin as (c & Hc). pose proof (grp_guard e a _ c Hc) as Hg. rewrite (svar_some e a s Hs) in Hg.
+    pose proof (sbounded_lit se c (znlit s) Hbd (H5 a Hne (fun F => F) c Hc) Hg) as Hl. now rewrite lit_var_znlit in Hl. }
+  assert (Harg : forall a v, tbl_var (e_a2v e) a = Some v -> v <= nv se /\ (e_sem e <> DST -> S v <= nv se)).
+  { intros a v Hv. destruct (sem_st (e_sem e)) eqn:Es.
+    - apply sem_st_true in Es. split; [|congruence].
+      assert (Ha : has af a = true) by (apply (t_live L af e Ht); congruence).
+      assert (Hne : tbl_var (e_a2s e) a <> None) by (apply H3; auto).
+      assert (Hc : In ([negate (zlit (svar e a)); zlit (avar e a)] ++ map zlit (map (avar e) (atk a))) (grp e a (atk a))).
+      { unfold grp, st_clauses. rewrite Es. apply in_or_app. right. left. reflexivity. }
+      pose proof (sbounded_lit se _ (zlit v) Hbd (H5 a Hne (fun F => F) _ Hc)) as Hl. rewrite lit_var_zlit in Hl.
+      apply Hl. rewrite (avar_some e a v Hv). right. left. reflexivity.
+    - apply sem_st_false in Es. pose proof (H6 Es a v Hv) as Hb.
+      pose proof (sbounded_lit se _ (znlit v) Hbd Hb) as L1. pose proof (sbounded_lit se _ (znlit (S v)) Hbd Hb) as L2.
+      rewrite lit_var_znlit in L1, L2. split; [apply L1; left; reflexivity|intros _; apply L2; right; left; reflexivity]. }
+  destruct Hx as [(a & Ha)|[(Hs & a & v & Ha & ->)|(a & Ha)]].
+  - apply (Harg a x Ha).
+  - apply (Harg a v Ha). exact Hs.
+  - apply (Hsel a x Ha).
+Qed.
+
+(* clauses guarded by a variable above n_vars that is forced true are dead *)
+Lemma cinv_add_guarded (af : fw) e C cs N N' dv atk g :
+  cinv af e [] C N dv atk -> (forall x, live_var e x -> x <= N) -> N < g -> g <= N' -> N <= N' ->
+  (forall c, In c cs -> In (zlit g) c) ->
+  cinv af e [] (C ++ cs) N' (updo dv g true) atk.
+Proof.
+  intros Hc Hlv Hg HgN HN Hcs. pose proof (dv_fresh_none _ _ _ _ _ _ _ g Hc Hg) as Hdg.
+  pose proof Hc as [H1 H2 H3 H4 H5 H6 H7].
+  assert (K1 : forall x b, dv x = Some b -> updo dv g true x = Some b).
+  { intros x b E. rewrite updo_other; [exact E|]. intros ->. congruence. }
+  split; auto.
+  - intros x Hx. destruct (Nat.eq_dec x g) as [->|Hne]; [exact HgN|].
+    rewrite updo_other in Hx by exact Hne. specialize (H1 x Hx). lia.
+  - intros x Hx. rewrite updo_other; [apply H2, Hx|]. specialize (Hlv x Hx). lia.
+  - intros a Hs Hn. apply incl_appl. auto.
+  - intros Hs a v Hv. apply in_or_app. left. eauto.
+  - intros c Hc'. apply in_app_or in Hc'. destruct Hc' as [Hc'|Hc'].
+    + destruct (H7 c Hc') as [Hd|[H|[H|H]]].
+      * left. eapply dead_clause_mono; [exact K1|exact Hd].
+      * right. left. exact H.
+      * right. right. left. exact H.
+      * right. right. right. exact H.
+    + left. exists (zlit g). split; [apply Hcs, Hc'|]. apply dead_zlit; [lia|apply updo_same].
+Qed.
+
+Theorem vreach_VI_pr oracle thr s ps os : vreach oracle thr KPr s ps os -> VI s ps.
+Proof.
+  intros Hv. assert (Hsk : std_kind KPr) by (unfold std_kind; tauto).
+  induction Hv as [ps0 s ps Hn|s ps os o Hr IH|s ps os fuel q cert l s' a ps' Hr IH Hq].
+  - unfold dyn_new in Hn. apply bind_Done in Hn. destruct Hn as (u & ps1 & Hn1 & Hn2).
+    apply ret_Done in Hn2. destruct Hn2 as [<- <-]. unfold new_solver in Hn1. apply Done_inj in Hn1. destruct Hn1 as [_ <-].
+    intros e He. cbn [s_buf b_enc s_af] in *. injection He as <-.
+    assert (T : forall id, tbl_var [] id = None) by (intros [|id]; reflexivity).
+    split; [intros c l0 []|]. exists (fun _ => None), (fun _ => []).
+    split; cbn [enc_enable enc_new e_a2v e_a2s e_sem st_new sess se_cl empty_session rclauses rev].
+    + intros x Hx. congruence.
+    + reflexivity.
+    + intros a Ha. exfalso. unfold has_argument_with_id, ls_has_id, empty_fw, fw_new_with_labels, fw_new in Ha.
+      cbn in Ha. destruct a; discriminate Ha.
+    + intros a Ha. rewrite T in Ha. congruence.
+    + intros a Ha. rewrite T in Ha. congruence.
+    + intros _ a v Hv. rewrite T in Hv. discriminate.
+    + intros c [].
+  - pose proof (vreach_reach _ _ _ _ _ _ Hr) as Hr'.
+    pose proof (reach_frame_inv L leqb _ _ _ Hr') as [Hkind _ _ _].
+    assert (Hnd : not_dummy (s_kind L s)) by (rewrite Hkind; exact I).
+    destruct (update_touches_no_encoder L leqb s o Hnd) as (Haf & Hen & _).
+    intros e He. rewrite Haf. apply IH. rewrite <- Hen. exact He.
+  - pose proof (vreach_reach _ _ _ _ _ _ Hr) as Hr'.
+    pose proof (reach_frame_inv L leqb _ _ _ Hr') as [Hkind _ _ _].
+    pose proof (std_kind_reach L leqb _ _ _ Hr' Hsk) as Hstd.
+    destruct (b_enc L (s_buf L s)) as [e0|e0] eqn:Ee0; [|destruct Hstd].
+    destruct (reach_RS KPr s os ps e0 Hr' Hsk Ee0 IH) as [Hrs Hu].
+    destruct (dyn_query_pr_inv oracle thr fuel s q cert l ps s' a ps' Hkind Hq) as (ans & Hpr).
+    destruct (pr_ds_query_inv oracle fuel s l ps s' ans ps' Hpr) as
+      [(-> & ->)|(af & buf & ps1 & Hue & ev & -> & (cs & G1 & G2 & G3 & G4) & G5)]; [exact IH|].
+    destruct (update_encoding_RS _ _ _ _ _ _ _ Ee0 Hrs Hu Hue) as (e' & He' & [Ht Hinv Hz Hbd (dv & atk & Hc)] & Hu').
+    intros e'' He''. cbn [pushed_state s_buf s_af buf_push buf_with b_enc] in *.
+    assert (e'' = e') by congruence. subst e''. split; [apply G3, Hbd|].
+    exists (updo dv (1 + nv (sess ps1)) true), atk. rewrite G1.
+    rewrite clause_max_single, lit_var_zlit in G5.
+    apply (cinv_add_guarded af e' _ cs (nv (sess ps1)) _ dv atk (1 + nv (sess ps1)) Hc); auto; try lia.
+    eapply live_var_le; [exact Hc| |reflexivity|exact Hbd]. apply tables_ok_split. exact Ht.
+Qed.
+
+(* THE CLAUSE-SET INVARIANT for every kind with the standard encoder (complete, stable, preferred) *)
+Theorem clause_set_invariant_std oracle thr k s ps os e :
+  vreach oracle thr k s ps os -> k = KCo \/ k = KSt \/ k = KPr -> b_enc L (s_buf L s) = XStd e ->
+  clause_inv L (s_af L s) e (cls ps) (session_n_vars (sess ps)).
+Proof.
+  intros Hv Hk He.
+  assert (Hvi : VI s ps).
+  { destruct Hk as [Hk|[Hk|Hk]].
+    - eapply vreach_VI; [exact Hv|auto].
+    - eapply vreach_VI; [exact Hv|auto].
+    - subst k. eapply vreach_VI_pr; exact Hv. }
+  destruct (Hvi e He) as [_ (dv & atk & Hc)].
+  assert (Hnd : not_dummy k) by (destruct Hk as [-> |[-> | ->]]; exact I).
+  destruct (std_tables_reach L leqb k s os e (vreach_reach _ _ _ _ _ _ Hv) He Hnd) as [Ht _].
+  exact (cinv_clause_inv _ _ _ _ _ _ Hc Ht).
+Qed.
+
 End DynInv.
